@@ -31,7 +31,7 @@ def _instances(famname, pool, reduced):
         fam = _FAM[famname]
         # rmw reads and writes one memory location (store->load dependencies belong to C05/C06)
         inst = fam.instances(pool, REDUCED + ["ld", "st", "ldc", "ldcb"] if reduced
-                             else [m for m in fam.mn if m != "rmw"])
+                             else [m for m in fam.mn if m not in ("rmw", "zi3")])
         if not reduced:
             # 3-operand forms: third operand cycles instead of the full cube
             keep = []
